@@ -5,6 +5,7 @@ pub mod civil;
 pub mod evidence;
 pub mod known;
 pub mod pool;
+pub mod procpool;
 pub mod rng;
 
 /// Default seed: fixed so that the unchanged tree sees the same executions
